@@ -139,9 +139,9 @@ theorem run_item (avc : Bool) (it : Item) (hw : it.wf = true) (buf : Bytes) :
       have hw := of_decide_eq_true hw
       simp [Item.encode, Item.nals, run, unmarshal_single avc buf h body hw, allOk, outBytes, Res.isOk,
         Rtp.Pred.C10.resBytes]
-  | stapA ns =>
+  | stapA sh ns =>
     simp only [Item.wf, Bool.and_eq_true, List.all_eq_true, decide_eq_true_eq] at hw
-    have ht : hType (stapHdr ns) = 24 := hType_mkHdr _ _ 24 (by omega)
+    have ht : hType sh = 24 := hw.1.1
     simp [Item.encode, Item.nals, run, unmarshal_stap avc buf _ _ ht, stapLoop_enc avc ns hw.2, allOk,
       outBytes, Res.isOk, Rtp.Pred.C10.resBytes]
   | fuA h cs =>
@@ -210,10 +210,10 @@ theorem heads_item (it : Item) (hw : it.wf = true) (ha : Rtp.Pred.C10.headsApply
       simp [Item.encode, Item.heads, isPartitionHead, not_fu_of_single h hw]
     | [_], ha => simp [Rtp.Pred.C10.headsApply] at ha
     | [], ha => simp [Rtp.Pred.C10.headsApply] at ha
-  | stapA ns =>
-    simp only [Item.wf, Bool.and_eq_true] at hw
-    have ht : hType (stapHdr ns) = 24 := hType_mkHdr _ _ 24 (by omega)
-    have e : stapHdr ns &&& naluTypeBitmask = 24 := type_of_hType (n := 24) (by decide) ht
+  | stapA sh ns =>
+    simp only [Item.wf, Bool.and_eq_true, decide_eq_true_eq] at hw
+    have ht : hType sh = 24 := hw.1.1
+    have e : sh &&& naluTypeBitmask = 24 := type_of_hType (n := 24) (by decide) ht
     cases ns with
     | nil => simp at hw
     | cons n ns =>
